@@ -125,7 +125,7 @@ def project(pdf, kind, newindex):
     return [{"rid": rid[i], "idx": idx[i], "k": k[i], "k2": k2[i]} for i in range(len(pdf))]
 
 
-def observe(y, kind, newindex, whole, keyseq):
+def observe(y, kind, newindex, whole, keyseq, bagkey=lambda r: (r["rid"], r["k"], r["k2"])):
     declared = int(y.npartitions)
     divs = tuple(y.divisions)
     known = not any(d is None for d in divs)
@@ -136,7 +136,7 @@ def observe(y, kind, newindex, whole, keyseq):
         try:
             w = project(y.compute(scheduler="sync"), kind, newindex)
             flat = [r for p in parts for r in p]
-            canon = lambda rows: sorted((r["rid"], r["k"], r["k2"]) for r in rows)       # noqa: E731 - ties may differ between two runs
+            canon = lambda rows: sorted(bagkey(r) for r in rows)       # noqa: E731 - ties may differ between two runs
             obs["wholeok"] = canon(w) == canon(flat) and [keyseq(r) for r in w] == [keyseq(r) for r in flat]
         except Exception as ex:  # noqa: BLE001
             if is_shim_error(ex) or isinstance(ex, (CallTimeout, NotImplementedError)):
@@ -190,6 +190,9 @@ def run_case(case, cfg):
             subset = {"k": ["k"], "kk": ["k", "k2"], "all": None}[case["subset"]]
             y = df.drop_duplicates(subset=subset, keep=case["keep"], split_out=cfg["split_out"], split_every=cfg["split_every"],
                                    shuffle_method=cfg["method"])
+            if pre["how"] != "none":       # which row of a key class survives is free after a pre-stage: two computations may differ in it
+                dk = {"k": lambda r: (r["k"],), "kk": lambda r: (r["k"], r["k2"]), "all": lambda r: (r["rid"],)}[case["subset"]]
+                return observe(y, kind, False, cfg["whole"], lambda r: 0, bagkey=dk)
             return observe(y, kind, False, cfg["whole"], lambda r: 0)
         # unique + nunique of the key column
         u = df["k"].unique(split_out=cfg["split_out"], split_every=cfg["split_every"], shuffle_method=cfg["method"])
@@ -440,6 +443,12 @@ def _presorted_ignoring_na(case, cfg):
     return len(parts) >= 1 and (up or down)
 
 
+ROOT_SIGNATURES = {"sort_values:npartitions:count", "sort_values:str:missing-keys:raised:ValueError", "sort_values:str:missing-keys:order",
+                   "sort_values:cat:missing-keys:order", "sort_values:partition-of-missing-keys:order",
+                   "sort_values:partition-of-missing-keys:raised:IndexError", "sort_values:presorted-apart-from-missing-keys:order",
+                   "sort_values:na_position=first:missing-keys:order", "set_index:auto:missing-keys", "set_index:auto:npartitions:count"}
+
+
 def classify(case, cfg, strategy, clauses, obs):
     """Input class / call site: operation and its mode, the shuffle that ran (disk / tasks / tasks:staged), the key dtype
     class, and which promise is broken."""
@@ -450,10 +459,13 @@ def classify(case, cfg, strategy, clauses, obs):
     fam = case["fam"]
     has_na = any(r["k"] == NA for r in case["rows"])
     if pre_of(case)["how"] != "none":
-        if fam == "sort" and cfg["nout"] is not None and group == "metadata":
-            return "sort_values:npartitions:count"
+        plain = classify(dict(case, pre=None), cfg, strategy, clauses, obs)
+        if plain in ROOT_SIGNATURES:              # a root cause that does not need the pre-stage
+            return plain
         if fam == "dedup" and group == "metadata" and cfg["split_out"] is not True and cfg["split_out"] > 1:
             return "drop_duplicates:pre-partitioned:split_out:count"
+        if fam == "dedup" and group == "metadata" and pre_of(case)["how"] == "shuffle" and not cfg.get("blockwise", True):
+            return "drop_duplicates:shuffle-directly-below:count"
         # pre-partitioned source: how the stage's columns relate to the columns of the operation is the input class
         return "%s:pre[%s]:%s:%s" % (famkey(case), pre_tag(case), strategy, group)
     if fam == "shuffle":
@@ -655,12 +667,12 @@ def run(ctx):
     ctx.extra["cases_enumerated_by_tlc"] = len(cases)
     q = ctx.quick
     dev = float(__import__("os").environ.get("VERIF_C40_DEV", "1"))        # development only: shrink the dask side
-    quota = {"shuffle": 900 if q else 9000, "sort": 900 if q else 9000, "setindex:auto": 450 if q else 4000, "setindex:user": 350 if q else 3000,
-             "setindex:sorted": 100 if q else 800, "dedup:drop_duplicates": 600 if q else 6000, "dedup:unique": 200 if q else 2000,
-             "pre:dedup": 450 if q else 3000, "pre:shuffle": 120 if q else 900, "pre:sort": 60 if q else 500}
+    quota = {"shuffle": 650 if q else 9000, "sort": 650 if q else 9000, "setindex:auto": 350 if q else 4000, "setindex:user": 250 if q else 3000,
+             "setindex:sorted": 80 if q else 800, "dedup:drop_duplicates": 450 if q else 6000, "dedup:unique": 150 if q else 2000,
+             "pre:dedup": 400 if q else 3000, "pre:shuffle": 100 if q else 900, "pre:sort": 50 if q else 500}
     quota = {k: max(20, int(v * dev)) for k, v in quota.items()}
     items = plan_items(ctx, cases, quota)
-    items += random_items(ctx.rng, 200 if q else 3000)
+    items += random_items(ctx.rng, 150 if q else 3000)
     _tick(ctx, "planned %d items from %d cases" % (len(items), len(cases)))
     del cases
     bad, done, skips = check_items(ctx, items, "recorded-calls")
@@ -714,10 +726,11 @@ def selftest(ctx):
     import dask.dataframe.dask_expr._shuffle as sh
     import dask.dataframe.shuffle as legacy
     rng = ctx.rng
-    consts = dict(bounds(ctx), MaxN=5, Full=2, Mod=48)
+    consts = dict(bounds(ctx), MaxN=5, Full=2, Mod=48, PreMod=11)
     cases = enumerate_cases(ctx, consts, FAMS, "selftest:cases")
     layouts = {c["c"]["n"]: c["e"] for c in cases if c["c"]["fam"] == "layouts"}
-    quota = {"shuffle": 70, "sort": 40, "setindex:auto": 25, "setindex:user": 60, "setindex:sorted": 10, "dedup:drop_duplicates": 60, "dedup:unique": 15}
+    quota = {"shuffle": 70, "sort": 40, "setindex:auto": 25, "setindex:user": 60, "setindex:sorted": 10, "dedup:drop_duplicates": 60, "dedup:unique": 15,
+             "pre:dedup": 70, "pre:shuffle": 25, "pre:sort": 10}
     items = plan_items(ctx, cases, quota, kinds=["int", "float", "str"])
     # directed configurations: three input partitions, task shuffle with max_branch=2 (two stages of two splits)
     for c in cases:
@@ -726,11 +739,23 @@ def selftest(ctx):
             cfg = dict(make_config(rng, layouts, case, ["int", "float", "str"]), method="tasks", mb=2, nout=None,
                        layout=list(rng.choice([x for x in layouts[len(case["rows"])] if len(x) == 3])))
             items.append(("e%d" % len(items), case, cfg, c["e"]))
+    # directed: pre-partitioned sources with one key value in many rows (so that a wrongly skipped shuffle leaves it in several
+    # partitions), the stage re-partitioning to 3 partitions, drop_duplicates with split_out=True
+    nd = 0
+    for c in cases:
+        case = c["c"]
+        if nd < 70 and case["fam"] == "dedup" and pre_of(case)["how"] in ("shuffle", "merge") and case["op"] == "drop_duplicates" and len(case["rows"]) >= 4:
+            ks = [r["k"] for r in case["rows"]]
+            if max(ks.count(v) for v in set(ks)) >= 3 and pre_tag(case).split(":")[1] in ("superset", "disjoint", "overlap"):
+                nd += 1
+                cfg = dict(make_config(rng, layouts, case, ["int", "float"]), pren=3, split_out=True, blockwise=True,
+                           layout=list(rng.choice([x for x in layouts[len(case["rows"])] if len(x) == 3 and 0 not in x])))
+                items.append(("e%d" % len(items), case, cfg, c["e"]))
     del cases
     _freeze()
 
     def outcome(fams):
-        sub = [it for it in items if it[1]["fam"] in fams]
+        sub = [it for it in items if ("pre" if pre_of(it[1])["how"] != "none" else it[1]["fam"]) in fams]
         results = pmap(_work, sub, chunk=8)
         sigs = {}
         for it, res in zip(sub, results):
@@ -743,7 +768,7 @@ def selftest(ctx):
         return sigs, len(sub)
 
     ok = True
-    base, n = outcome({"shuffle", "sort", "setindex", "dedup"})
+    base, n = outcome({"shuffle", "sort", "setindex", "dedup", "pre"})
     print("selftest C40 baseline (unmutated code, %d cases): violations outside known findings %s -> %s" % (n, base, "ok" if not base else "UNEXPECTED"))
     ok &= not base
     pidx = mutate(legacy.partitioning_index, "hash_object_dispatch(df, index=False)", "hash_object_dispatch(df, index=True)")
@@ -757,6 +782,13 @@ def selftest(ctx):
                                             "nsplits = int(math.floor(npartitions_input ** (1 / stages)))"))]),
         ("set_partitions_pre: searchsorted side right -> left (a label equal to a division goes to the partition before it)", {"setindex"},
          [(legacy, "set_partitions_pre", spre), (sh, "set_partitions_pre", spre), (sh._SetPartitionsPreSetIndex, "operation", staticmethod(spre))]),
+        # partitioning knowledge wrongly lets an operation skip its own shuffle
+        ("ApplyConcatApply.need_to_shuffle: subset test turned round (`>=` -> `<=`): a frame partitioned on a SUPERSET of the columns skips the shuffle", {"pre"},
+         [(red.ApplyConcatApply, "need_to_shuffle", mutate(vars(red.ApplyConcatApply)["need_to_shuffle"],
+                                                          "set(split_by) >= (set(cols)", "set(split_by) <= (set(cols)"))]),
+        ("ApplyConcatApply.need_to_shuffle: ANY partitioning knowledge counts (even on unrelated columns)", {"pre"},
+         [(red.ApplyConcatApply, "need_to_shuffle", mutate(vars(red.ApplyConcatApply)["need_to_shuffle"],
+                                                          "if any(\n", "if self.frame.unique_partition_mapping_columns_from_shuffle or any(\n"))]),
         ("DropDuplicates.chunk_kwargs: keep is not handed to the per-partition drop_duplicates (always 'first')", {"dedup"},
          [(red.DropDuplicates, "chunk_kwargs", mutate(keep.fget, 'out = {"keep": self.keep}', 'out = {"keep": "first"}'))]),   # (the source carries @property)
     ]
